@@ -23,6 +23,7 @@ import (
 	"encoding/json"
 	"fmt"
 	"math/big"
+	"strings"
 	"testing"
 
 	"github.com/ethereum/go-ethereum/common"
@@ -203,22 +204,7 @@ func (x *c02Tx) txdata() TxData {
 		tx := &BlobTx{ChainID: c02U256(x.chainID), Nonce: x.nonce, GasTipCap: c02U256(x.tip), GasFeeCap: c02U256(x.cap), Gas: x.gas, To: *to, Value: c02U256(x.value), Data: data, AccessList: al,
 			BlobFeeCap: c02U256(x.blobCap), BlobHashes: append([]common.Hash(nil), x.blobHashes...), V: c02U256(x.v), R: c02U256(x.r), S: c02U256(x.s)}
 		if sc := x.sidecar; sc != nil {
-			gsc := &BlobTxSidecar{Version: sc.version}
-			for _, b := range sc.blobs {
-				var blob kzg4844.Blob
-				copy(blob[:], b)
-				gsc.Blobs = append(gsc.Blobs, blob)
-			}
-			for _, c := range sc.commitments {
-				var cm kzg4844.Commitment
-				copy(cm[:], c)
-				gsc.Commitments = append(gsc.Commitments, cm)
-			}
-			for _, p := range sc.proofs {
-				var pr kzg4844.Proof
-				copy(pr[:], p)
-				gsc.Proofs = append(gsc.Proofs, pr)
-			}
+			gsc := sc.geth()
 			tx.Sidecar = gsc
 		}
 		return tx
@@ -234,6 +220,27 @@ func (x *c02Tx) txdata() TxData {
 		return tx
 	}
 	panic("c02: bad type")
+}
+
+// geth builds the package's sidecar object from the reference description.
+func (sc *c02Sidecar) geth() *BlobTxSidecar {
+	gsc := &BlobTxSidecar{Version: sc.version}
+	for _, b := range sc.blobs {
+		var blob kzg4844.Blob
+		copy(blob[:], b)
+		gsc.Blobs = append(gsc.Blobs, blob)
+	}
+	for _, c := range sc.commitments {
+		var cm kzg4844.Commitment
+		copy(cm[:], c)
+		gsc.Commitments = append(gsc.Commitments, cm)
+	}
+	for _, p := range sc.proofs {
+		var pr kzg4844.Proof
+		copy(pr[:], p)
+		gsc.Proofs = append(gsc.Proofs, pr)
+	}
+	return gsc
 }
 
 func c02FromAL(al AccessList) []c02Tuple {
@@ -772,6 +779,98 @@ func c02TryNetwork(t c02Fataler, nb []byte) (*c02Tx, bool) {
 }
 
 // ---------------------------------------------------------------------------
+// derived transactions: chains of WithBlobTxSidecar / WithoutBlobTxSidecar
+
+// c02CheckDerived asserts the statement's clauses on a transaction obtained by
+// attaching/replacing/stripping sidecars: its size is the length of its own
+// encoding, its hash is unchanged, its encoding decodes back (passing the whole
+// byte-level oracle) to a transaction of the same size, and stripping it gives a
+// transaction that is consistent in the same way.
+func c02CheckDerived(t c02Fataler, d *Transaction, wantHash common.Hash, via string) {
+	enc, err := d.MarshalBinary()
+	if err != nil {
+		t.Fatalf("%s: MarshalBinary: %v", via, err)
+	}
+	if sz := d.Size(); sz != uint64(len(enc)) {
+		t.Fatalf("%s: Size() = %d but the transaction's own encoding has %d bytes", via, sz, len(enc))
+	}
+	if h := d.Hash(); h != wantHash {
+		t.Fatalf("%s: Hash() = %x, want %x (hash must not depend on the sidecar)", via, h, wantHash)
+	}
+	fresh := new(Transaction)
+	if err := fresh.UnmarshalBinary(enc); err != nil {
+		t.Fatalf("%s: encoding of the derived tx does not decode: %v", via, err)
+	}
+	c02CheckAccepted(t, fresh, enc, via+" -> fresh decode")
+	if fresh.Size() != d.Size() {
+		t.Fatalf("%s: Size() = %d, the same bytes decoded afresh report %d", via, d.Size(), fresh.Size())
+	}
+	stripped := d.WithoutBlobTxSidecar()
+	sb, err := stripped.MarshalBinary()
+	if err != nil {
+		t.Fatalf("%s: stripped MarshalBinary: %v", via, err)
+	}
+	if sz := stripped.Size(); sz != uint64(len(sb)) {
+		t.Fatalf("%s: WithoutBlobTxSidecar().Size() = %d, its encoding has %d bytes (with sidecar: Size %d, %d bytes)", via, sz, len(sb), d.Size(), len(enc))
+	}
+	if stripped.Hash() != wantHash || stripped.BlobTxSidecar() != nil {
+		t.Fatalf("%s: stripped tx has hash %x (want %x) or still carries a sidecar", via, stripped.Hash(), wantHash)
+	}
+}
+
+// c02DerivedChain applies a drawn chain of sidecar operations to a blob
+// transaction and checks every (observed) intermediate and the final result.
+// Whether an intermediate is observed matters: observing calls Size()/Hash() and
+// thereby fills the caches the next step may carry over.
+func c02DerivedChain(rt *rapid.T, tx *Transaction, origin string) (steps string) {
+	if tx.Type() != BlobTxType {
+		return ""
+	}
+	if sc := tx.BlobTxSidecar(); sc != nil && len(sc.Blobs) == 0 && c02SkipKnown("sidecar-zero-blobs") {
+		return "" // the start object already carries the known size defect
+	}
+	wantHash := c02FromTx(tx).hash()
+	cur := tx
+	n := rapid.IntRange(1, 4).Draw(rt, "chain-len")
+	steps = origin
+	for i := 0; i < n; i++ {
+		op := []string{"replace", "replace", "copy", "convert", "strip", "attach-after-strip"}[c02Pick(rt, "chain-op", 6)]
+		have := cur.BlobTxSidecar()
+		switch {
+		case op == "strip":
+			cur = cur.WithoutBlobTxSidecar()
+		case op == "copy" && have != nil:
+			cur = cur.WithBlobTxSidecar(have.Copy())
+		case op == "convert" && have != nil:
+			// the v0 <-> v1 conversion flow (eth_sendRawTransaction): same blobs and commitments,
+			// other version, other number of proofs. (BlobTxSidecar.ToV1 itself needs valid KZG
+			// blobs; only its effect on the object matters here.)
+			conv := have.Copy()
+			conv.Version = 1 - have.Version
+			np := len(have.Blobs)
+			if conv.Version == 1 {
+				np = len(have.Blobs) * rapid.SampledFrom([]int{1, 2, kzg4844.CellProofsPerBlob}).Draw(rt, "chain-cellproofs")
+			}
+			conv.Proofs = make([]kzg4844.Proof, np)
+			for j := range conv.Proofs {
+				c02Fill(conv.Proofs[j][:], uint64(j)+rapid.Uint64().Draw(rt, "chain-proof-seed"))
+			}
+			cur = cur.WithBlobTxSidecar(conv)
+		case op == "attach-after-strip":
+			cur = cur.WithoutBlobTxSidecar().WithBlobTxSidecar(c02GenSidecar(rt, false).geth())
+		default:
+			cur = cur.WithBlobTxSidecar(c02GenSidecar(rt, false).geth())
+			op = "replace"
+		}
+		steps += ">" + op
+		if i == n-1 || rapid.Bool().Draw(rt, "chain-observe") {
+			c02CheckDerived(rt, cur, wantHash, steps)
+		}
+	}
+	return steps
+}
+
+// ---------------------------------------------------------------------------
 // (a) constructed transactions
 
 func c02SameBig(a, b *big.Int) bool { return a.Cmp(b) == 0 }
@@ -928,6 +1027,19 @@ func c02PropConstructed(st *vs.S) func(rt *rapid.T) {
 				rt.Fatalf("WithBlobTxSidecar(WithoutBlobTxSidecar(tx)) differs: size %d want %d", back.Size(), len(want))
 			}
 		}
+		// --- derived transactions: chains of sidecar replacement / stripping / re-attachment from
+		// an object that was never sized, one whose Size()/Hash() were computed, or a decoded one
+		chain := ""
+		if x.typ == BlobTxType && rapid.IntRange(0, 2).Draw(rt, "chain") != 0 {
+			switch c02Pick(rt, "chain-start", 3) {
+			case 0:
+				chain = c02DerivedChain(rt, NewTx(x.txdata()), "fresh")
+			case 1:
+				chain = c02DerivedChain(rt, tx, "sized")
+			default:
+				chain = c02DerivedChain(rt, dtx, "decoded")
+			}
+		}
 		// --- JSON (signature-valid or unsigned inputs; consensus-shaped blob/auth lists)
 		// (hexutil.Big, the JSON integer type, is documented to reject values over 256 bits)
 		jsonOK := (sigClass == "valid" || sigClass == "zero") && x.fits256() &&
@@ -983,6 +1095,10 @@ func c02PropConstructed(st *vs.S) func(rt *rapid.T) {
 			}
 			if jsonOK {
 				c.Class("json-roundtrip")
+			}
+			if chain != "" {
+				c.Class("derived-chain")
+				c.Classf("derived-chain-start:%s", chain[:strings.Index(chain+">", ">")])
 			}
 			if zeroSkip {
 				c.Class("excluded-known:sidecar-zero-blobs")
@@ -1244,6 +1360,15 @@ func c02PropBytes(st *vs.S) func(rt *rapid.T) {
 		if (mode == "valid" || mustAccept) && !accepted {
 			rt.Fatalf("valid %s envelope (%s %s) rejected: %s", x.typeName(), mode, what, c02Hex(b))
 		}
+		// derived transactions from a decoded blob tx (sidecar replaced / converted / stripped / re-attached)
+		chain := ""
+		if accepted && dx.typ == BlobTxType && rapid.Bool().Draw(rt, "chain") {
+			dtx := new(Transaction)
+			if err := dtx.UnmarshalBinary(b); err != nil {
+				rt.Fatalf("second UnmarshalBinary of an accepted input failed: %v", err)
+			}
+			chain = c02DerivedChain(rt, dtx, "decoded")
+		}
 		// list-element form of the same bytes, plus forged string headers around typed payloads
 		nb := c02NetworkForm(b)
 		netMode := "canonical-wrap"
@@ -1282,6 +1407,9 @@ func c02PropBytes(st *vs.S) func(rt *rapid.T) {
 				}
 			}
 			c.Class("net:" + netMode)
+			if chain != "" {
+				c.Class("derived-chain")
+			}
 			forged := what == "sloppy-header" || ((netMode == "long-form-string-header" || netMode == "leading-zero-string-length") && !bytes.Equal(nb, c02NetworkForm(b)))
 			forged = forged || (mode == "sidecar-forged" && !mustAccept)
 			nt := ((mode == "mutated" || mode == "sidecar-forged") && accepted) || forged
